@@ -73,7 +73,7 @@ def check_state(n: int, v, va: np.ndarray, K: int, tabs: dict, sa, tol: float, r
 
 
 def unit(u) -> Stats:
-    n, tag, v, rs, tol = u
+    n, tag, v, rs, tol = u[:5]
     if isinstance(v, tuple) and v and v[0] == "GEN":
         v = gens.draw(v[1], v[2], v[3])
         tol = gens.float_tol(v, n)
@@ -112,6 +112,39 @@ def unit(u) -> Stats:
         if np.any(last.lo != sa.lo) or np.any(last.up != sa.up):
             st.count("states_where_sam_is_strictly_tighter_than_sa")
         st.outcomes.add(hash(last.key))
+    # one long-lived object re-filled with this game after it held ANOTHER game of the class (set_value on the known coalitions,
+    # no bulk reset in between): the bounds must still be those of the current knowledge, hence sound for the current game
+    other = u[5] if len(u) > 5 else None
+    if other is not None and st.nviol == 0:
+        ids_all = list(range(1 << n))
+        rs2 = tuple(r for r in rs if r <= 10)[:4] or (rs[0],)
+        for K in (Ks if n == 3 else list(A.layered_knowledge(n, 1))[:24]):
+            tabs = {}
+            ids = [s for s in ids_all if K >> s & 1]
+            hist = [("reset-with-other-game", K), ("compute",)] + [("set_value", s) for s in ids] + [("compute",)]
+            for comp in [SA_REF] + [f"sam_apx_{r}" for r in rs2]:
+                g = new_game(n, comp)
+                try:
+                    apply_op(g, other, ("reset", K))
+                    g.compute_bounds()
+                    for s in ids:
+                        apply_op(g, v, ("set", s))
+                    g.compute_bounds()
+                except Exception as e:  # noqa: BLE001
+                    st.violation(f"[{comp} n={n} {tag}] refill history raised {type(e).__name__}: {e}", n=n, values=list(v), other=list(other),
+                                 history=[list(h) for h in hist], rs=list(rs2), refill=True)
+                    return st
+                tabs[comp] = read(g)
+                st.transitions += 3 + len(ids)
+                st.states += 1
+            msg = check_state(n, v, va, K, {r: tabs[f"sam_apx_{r}"] for r in rs2}, tabs[SA_REF], tol, rs2)
+            st.evals += len(rs2)
+            if msg:
+                st.violation(f"[sam n={n} {tag}] object previously filled with another game of the class, then re-filled (set_value) with this one at "
+                             f"knowledge {A.kmask_ids(K)}: {msg}", n=n, values=list(v), other=list(other), history=[list(h) for h in hist], rs=list(rs2),
+                             K=A.kmask_ids(K), tag=tag, refill=True)
+                if st.nviol >= 3:
+                    return st
     if n == 3 and tag == "plain#77":
         st.sample({"n": n, "values": list(v), "repetitions": list(rs), "knowledge_sets": len(Ks)})
     return st
@@ -124,10 +157,11 @@ R4_FULL = (0, 1, 2, 3, 10)
 def units(run: Run):
     seed, quick = run.seed, run.quick
     us = []
-    for i, g in enumerate(A.a3_sam()):
+    sam3 = A.a3_sam()
+    for i, g in enumerate(sam3):
         rs = R3 + ((1000,) if (not quick or i % 4 == seed % 4) else ())
-        us.append((3, f"plain#{i}", g, rs, 0.0))
-        us.append((3, f"shift#{i}", A.shifted(g, (-1, -2, 0)), R3, 0.0))
+        us.append((3, f"plain#{i}", g, rs, 0.0, sam3[(i * 7 + 3 + seed) % len(sam3)]))
+        us.append((3, f"shift#{i}", A.shifted(g, (-1, -2, 0)), R3, 0.0, sam3[(i * 5 + 1 + seed) % len(sam3)]))
         us.append((3, f"dyadic#{i}", A.scaled(g, 0.25), R3, 0.0))
     sam4 = A.a4_sam() if quick else A.a4_sam((-3, -2, -1, 0))
     for i, g in enumerate(sam4):
@@ -138,7 +172,7 @@ def units(run: Run):
             rs = R4_FULL if i % 3 == seed % 3 else (0, 1)
         else:
             rs = tuple(range(11)) if i % 9 == seed % 9 else R4_FULL
-        us.append((4, f"sam#{i}", gv, rs, 0.0))
+        us.append((4, f"sam#{i}", gv, rs, 0.0, sam4[(i * 11 + 5 + seed) % len(sam4)] if i % 4 == seed % 4 else None))
     two_valued = [g for g in A.a4_sam() if set(g) <= {0, -1}]
     for i, g in enumerate(two_valued):
         if quick and i % 8 != seed % 8:
@@ -168,6 +202,8 @@ def run(run: Run) -> None:
                 "non-trivial = distinct (game, K) with a non-degenerate interval")
     run.bounds = {"n": [3, 4] if run.quick else [3, 4, 5], "repetitions_n3": list(R3) + [1000], "repetitions_n4": list(R4_FULL),
                   "units": len(us)}
+    run.rule += ("; plus, for every 3-player game and a quarter of the 4-player games, one long-lived object first filled with ANOTHER game of the class "
+                 "and then re-filled through set_value (no bulk reset) at every K: all clauses again")
     run.assumptions = ["quick tier: two thirds of the A4-SAM games are run with r in {0,1} only; r=1000 on a quarter of A3-SAM",
                        "float families: G2 tolerance"]
     us.sort(key=lambda u: -cost(u))
@@ -179,6 +215,25 @@ def replay(doc: dict):
     hist = [tuple(h) for h in doc["history"]]
     rs = doc.get("rs", [0, 1])
     tol = gens.float_tol(v, n) if str(doc.get("tag", "")).startswith("gen:") else 0.0
+    if doc.get("refill"):
+        K = A.kmask(doc["K"])
+        ids = [s for s in range(1 << n) if K >> s & 1]
+
+        def refill(comp):
+            g = new_game(n, comp)
+            apply_op(g, doc["other"], ("reset", K))
+            g.compute_bounds()
+            for s in ids:
+                apply_op(g, v, ("set", s))
+            g.compute_bounds()
+            return read(g)
+        try:
+            tabs = {r: refill(f"sam_apx_{r}") for r in rs}
+            sa = refill(SA_REF)
+        except Exception as e:  # noqa: BLE001
+            return True, f"replay raised {type(e).__name__}: {e}"
+        msg = check_state(n, v, np.array(v, dtype=np.float64), K, tabs, sa, tol, rs)
+        return bool(msg), f"refill replay n={n} values={v} other={doc['other']} K={doc['K']}: {msg or 'all five clauses hold'}"
     try:
         tabs = {r: read(run_history(n, f"sam_apx_{r}", v, hist)) for r in rs}
         sa = read(run_history(n, SA_REF, v, hist))
